@@ -15,3 +15,66 @@ def holds(name, payload):
         return False
     fn = REG.get(name)
     return bool(fn and fn(payload))
+
+
+def _g(payload):
+    return payload.get('g') or {}
+
+
+def _potential_from(g, roots):
+    S = set(roots)
+    while True:
+        T = set(S)
+        for s, t in g.get('der', []):
+            if s in S:
+                T.add(t)
+        for c in g.get('ch', []):
+            if c['origin'] in S:
+                T.update(c['opts'])
+        if T == S:
+            return S
+        S = T
+
+
+@trigger
+def SharedOptionWithIncompatibility(payload):
+    """Some node is an option of two or more selection choices, and the description has an incompatibility pair."""
+    g = _g(payload)
+    cnt = {}
+    for c in g.get('ch', []):
+        for o in c['opts']:
+            cnt[o] = cnt.get(o, 0)+1
+    return bool(g.get('inc')) and any(v > 1 for v in cnt.values())
+
+
+@trigger
+def SharedOptionNode(payload):
+    g = _g(payload)
+    cnt = {}
+    for c in g.get('ch', []):
+        for o in c['opts']:
+            cnt[o] = cnt.get(o, 0)+1
+    return any(v > 1 for v in cnt.values())
+
+
+@trigger
+def PermanentChoiceOptionTouchedByIncompatibility(payload):
+    """A selection choice on a permanent originating node has an option whose (potential) derivation closure contains
+    an end of an incompatibility pair: in some scenario the choice is left with one option and is auto-resolved."""
+    g = _g(payload)
+    perm = set(g.get('start', []))
+    while True:
+        T = set(perm)
+        for s, t in g.get('der', []):
+            if s in perm:
+                T.add(t)
+        if T == perm:
+            break
+        perm = T
+    ends = {x for p in g.get('inc', []) for x in p}
+    for c in g.get('ch', []):
+        if c['origin'] in perm and len(c['opts']) >= 2:
+            for o in c['opts']:
+                if _potential_from(g, [o]) & ends:
+                    return True
+    return False
